@@ -169,6 +169,7 @@ def run(ctx):
         _virtual_items(ctx, res)
         _histories(ctx, res)
         _decompressed_items(ctx, res)
+        _mod_dates(ctx, res)
         outs = ctx.driver.run(model_lines)
         for (inp, impl), o in zip(checks, outs):
             res.evaluations += 1
@@ -359,6 +360,64 @@ def _virtual_items(ctx, res):
         tree.close()
 
 
+def _mod_dates(ctx, res):
+    """The Mod-Date line of the +ADMIN block is the item's modification time, in the server's time zone, whatever that zone
+    is: files and directories (their mtime), archive members (the wall-clock time stored with the member).  Expected values
+    are computed here from the calendar, not through time.localtime()/mktime()."""
+    import calendar
+    import datetime
+    import time
+    import zipfile
+    zones = [("UTC0", lambda y, mo, d, h: 0),
+             # US Eastern with its switching rule: UTC-5, UTC-4 from the second Sunday of March to the first Sunday of November
+             ("EST5EDT,M3.2.0,M11.1.0", None), ("CET-1CEST,M3.5.0,M10.5.0/3", None), ("IST-5:30", lambda y, mo, d, h: 19800)]
+    old_tz = os.environ.get("TZ")
+    tree = pyg.Tree()
+    try:
+        stamps = [(2021, 7, 15, 12, 34, 56), (2021, 1, 15, 3, 4, 6), (1999, 12, 31, 23, 59, 58), (2024, 2, 29, 0, 0, 2)]
+        with zipfile.ZipFile(os.fsdecode(tree.path("arch.zip")), "w") as z:
+            for i, st in enumerate(stamps):
+                zi = zipfile.ZipInfo("m%d.txt" % i, date_time=st)
+                zi.external_attr = 0o100644 << 16
+                z.writestr(zi, b"member %d\n" % i)
+                zi = zipfile.ZipInfo("sub/deep%d.txt" % i, date_time=st)
+                zi.external_attr = 0o100644 << 16
+                z.writestr(zi, b"deep %d\n" % i)
+        cfg = pyg.make_config(tree.root, pyg.FULL_HANDLERS, **{"handlers.dir.DirHandler|cachetime": "0", "handlers.ZIP.ZIPHandler|enabled": "true"})
+        for zone, _ in zones:
+            os.environ["TZ"] = zone
+            time.tzset()
+            # plain files stamped with an instant: expected wall clock = datetime in this zone (fromtimestamp after tzset)
+            for i, st in enumerate(stamps):
+                tree.write("plain%d.txt" % i, b"p\n")
+                epoch = calendar.timegm(st)                    # the instant whose UTC wall clock is `st`
+                os.utime(tree.path("plain%d.txt" % i), (epoch, epoch))
+            pyg.reset_globals()
+            for sel, want in ([("/arch.zip/m%d.txt" % i, st) for i, st in enumerate(stamps)] +
+                              [("/arch.zip/sub/deep%d.txt" % i, st) for i, st in enumerate(stamps)] +
+                              [("/plain%d.txt" % i, tuple(datetime.datetime.fromtimestamp(calendar.timegm(st)).timetuple()[:6])) for i, st in enumerate(stamps)]):
+                r = pyg.request(reqs.build("gopherp", sel, gplus="!"), cfg)
+                res.evaluations += 1
+                m = re.search(rb" Mod-Date: ([^\r\n<]*)<(\d{14})>\r\n", r.out or b"")
+                stamp = "%04d%02d%02d%02d%02d%02d" % want
+                res.nontrivial.add(("mod-date", zone, sel))
+                wd = "Mon Tue Wed Thu Fri Sat Sun".split()[calendar.weekday(*want[:3])]
+                mon = "Jan Feb Mar Apr May Jun Jul Aug Sep Oct Nov Dec".split()[want[1] - 1]
+                text = "%s %s %2d %02d:%02d:%02d %04d " % (wd, mon, want[2], want[3], want[4], want[5], want[0])
+                if not m or m.group(2).decode() != stamp or m.group(1).decode() != text:
+                    res.violation("C15:mod-date:" + ("member" if "arch.zip" in sel else "file"), "Mod-Date is not the item's modification time in the server's zone",
+                                  {"item": sel, "TZ": zone}, observed=(m.group(0) if m else (r.out or b"")[:120]), required=" Mod-Date: " + text + "<" + stamp + ">",
+                                  replay={"kind": "mod-date", "TZ": zone, "item": sel})
+    finally:
+        if old_tz is None:
+            os.environ.pop("TZ", None)
+        else:
+            os.environ["TZ"] = old_tz
+        time.tzset()
+        tree.close()
+        pyg.reset_globals()
+
+
 def _decompressed_items(ctx, res):
     """Documents the decompressing handler generates (non-default configuration): the '+' prefix is the exact length of what
     follows or the unknown-length marker, and a size in +VIEWS is the size of what is delivered — also for gzip files of several
@@ -405,6 +464,11 @@ def _decompressed_items(ctx, res):
 
 
 def replay(data):
+    if data["violation"]["replay"].get("kind") == "mod-date":
+        r = Result()
+        _mod_dates(None, r)
+        print(r.violations[:4])
+        return 0
     if data["violation"]["replay"].get("history"):
         print("history check of harness/props/c15.py _histories:", data["violation"]["replay"], data["violation"]["input"])
         return 0
